@@ -276,8 +276,11 @@ func (rm *RequestManager) cancelRequest(requestID graphsync.RequestID, onTermina
 	if onTerminated != nil {
 		inProgressRequestStatus.onTerminated = append(inProgressRequestStatus.onTerminated, onTerminated)
 	}
-	rm.SendRequest(inProgressRequestStatus.p, gsmsg.NewCancelRequest(requestID))
+	// end the request's context before telling the responder: an executor that is about to send the
+	// request sees the cancellation afterwards and repeats the cancel behind its own message
+	p := inProgressRequestStatus.p
 	rm.cancelOnError(requestID, inProgressRequestStatus, terminalError)
+	rm.SendRequest(p, gsmsg.NewCancelRequest(requestID))
 }
 
 func (rm *RequestManager) cancelOnError(requestID graphsync.RequestID, ipr *inProgressRequestStatus, terminalError error) {
